@@ -634,7 +634,7 @@ func (c *Ctx) parserOwnsBytes() {
 	copied := false
 	for _, cl := range callsIn(f) {
 		if b, ok := cl.Common().Value.(*ssa.Builtin); ok && b.Name() == "copy" {
-			copied = strings.Join(leaves(cl.Common().Args[1]), ",") == "arr"
+			copied = strings.Join(leaves(cl.Common().Args[1]), ",") == "#1"
 		}
 	}
 	c.check(okv && copied, R, "SetTopUppedArray copies the caller's bytes into its own buffer", f.Pos(), "s.buf = make(len(arr)); copy(s.buf, arr)", "SetTopUppedArray keeps the caller's slice as the bit string's buffer: clearing the completion tag then modifies the bag-of-cells bytes the caller passed in (a second parse of the same bytes yields different cells, the CRC no longer matches)")
